@@ -37,7 +37,12 @@ RULE = ("real pass sequences, built from a replayable spec and solved: 1-5 top-l
         "varied (incl. defaults), derived hook values READ on the caller's profile object before it is handed to solve "
         "(none / a few / all readable hooks of the profile class: fills its hook cache), optionally a flow-stress or "
         "width (spreading) model registered as hook implementation "
-        "(removed in `finally`); every unit and disk element of the solved tree is checked by the oracle and the whole "
+        "(removed in `finally`); what the disk partition and the time chain READ is given explicitly or by a plug-in instead "
+        "of taking the core's default: 16 % of the passes get an `exit_point` != 0 (exit plane before / behind the high "
+        "point), 7 % an `entry_point`, 7 % a `velocity` as keyword (60 % of those that had none get 1-4 disk elements), and 22 % "
+        "of the cases register 1-4 plug-in hook implementations for the run (exit_point = f x -entry_point, entry_point from "
+        "the height change x f, forward slip velocity, `disk_element_count` 1-3 for EVERY unit without an explicit count, "
+        "transport velocity x f, transport dwell added to length / velocity); two corpus layouts of that kind; every unit and disk element of the solved tree is checked by the oracle and the whole "
         "tree is compared with the Lean hand-over model; 15 % of the sequences (and every corpus layout) are solved a SECOND "
         "time, the same objects, on a changed billet (1-4 of temperature / density / heat capacity / material / length / "
         "strain / t changed, flow stress changed / dropped / added, 0-2 entries removed, 0-2 new entries, size +-1.5 %; in "
@@ -48,7 +53,10 @@ RULE = ("real pass sequences, built from a replayable spec and solved: 1-5 top-l
         "oracle on the second solve and model `solveTwice` against it; for every roll pass with disk elements the history "
         "of what the disk elements read of the roll's hook cache, per solve and iteration, against the cache model "
         "`Refresh.solves`; `Unit.init_solve` itself on generated histories of "
-        "incoming profiles and out-profile edits against `Handover.initOut`; plus every generated formula x random environments. "
+        "incoming profiles and out-profile edits against `Handover.initOut`; plus every generated formula x random environments; "
+        "five roll passes with disk elements whose `duration` / `length` / roll `contact_length` is GIVEN (keyword, plug-in) "
+        "are solved and examined on every run and RECORDED (the roll-pass disk elements bypass these three values: they do "
+        "not add up on the unchanged tree; reported only with ROLL_PASS_DISKS_FOLLOW_GIVEN_REQUIRED). "
         "non-trivial = the sequence solved, has >= 2 units and a positive incoming length; distinct by the spec.")
 ASSUMPTIONS = [
     "IEEE rounding and unconverged iterations: the theorems are exact over the reals at a consistent assignment; on "
@@ -63,6 +71,10 @@ ASSUMPTIONS = [
     "the cache model (Refresh) counts states, not values: `the value of state i` is what `reevaluate_cache` of iteration i "
     "left in the cache; that two iterations are needed whenever the incoming state changed is a hypothesis (n + 2) of "
     "`helper_value_of_this_solve`; the C3 linearisation is computed by the translator and compared with `__mro__` at run time",
+    "roll-pass disk elements add up to the pass for every exit plane, entry plane, velocity and count (given or plugged "
+    "in: free variables of the translated formulas, theorem `disks_partition_roll_pass_of`), NOT when the pass' `duration` or "
+    "`length` or the roll's `contact_length` itself is given (theorem `given_value_breaks_roll_pass_partition`; the code "
+    "behaves like the formulas: recorded in `notes.roll_pass_disks_given_value`, not reported)",
 ]
 
 P = "roll_pass/hookimpls/profile.py"
@@ -155,10 +167,14 @@ def build_unit(spec, label):
         kw["disk_element_count"] = spec["disks"]
     if t == "pass":
         s = spec["scale"]
+        # `given` / `roll_given`: values the caller states explicitly for hooks of the pass / of its working roll that
+        # usually take their default or derived value (exit_point, entry_point, velocity; duration, length; contact_length)
         roll = Roll(groove=_groove(spec), nominal_radius=160e-3 * s, rotational_frequency=spec.get("freq", 1),
-                    **({"neutral_point": spec["neutral_point"]} if "neutral_point" in spec else {}))
+                    **({"neutral_point": spec["neutral_point"]} if "neutral_point" in spec else {}),
+                    **spec.get("roll_given", {}))
         if "rotation" in spec:
             kw["rotation"] = spec["rotation"]
+        kw.update(spec.get("given", {}))
         if spec.get("three"):
             if spec["groove"] == "oval":
                 return ThreeRollPass(label=label, roll=roll, gap=2e-3 * s * spec.get("gap", 1.0), **kw)
@@ -232,31 +248,108 @@ def _width(self, cycle):
     return self.roll_pass.in_profile.width * self.roll_pass.draught ** -0.5
 
 
-class Registered:
-    """extra models as hook implementations: registered on entry, removed again on exit (also the extra root hooks)"""
+# ---- plug-ins: hook implementations for the quantities the disk partition and the time chain READ ---------------------
+# (what a roll flattening / forward slip / contact model, a roller table with its own speed or a plug-in that subdivides
+# every unit does: a value that usually is the core's default comes from a registered function instead)
+def _plug_exit_point(f):
+    def exit_point(self):
+        return f * -self.entry_point          # material leaves the gap behind (f > 0) / before (f < 0) the high point
+    return exit_point
 
-    def __init__(self, model):
+
+def _plug_entry_point(f):
+    def entry_point(self):
+        import numpy as np
+        dh = self.in_profile.height - self.height
+        if dh > 0:
+            return -f * float(np.sqrt(self.roll.nominal_radius * dh))
+    return entry_point
+
+
+def _plug_velocity(f):
+    def velocity(self):
+        return f * self.roll.working_velocity     # forward slip
+    return velocity
+
+
+def _plug_disk_count(n):
+    def disk_element_count(self):
+        return n
+    return disk_element_count
+
+
+def _plug_transport_velocity(f):
+    def velocity(self):
+        if self.in_profile.has_value("velocity"):
+            return f * self.in_profile.velocity   # roller table driven faster / slower than the stock arrives
+    return velocity
+
+
+def _plug_transport_dwell(d):
+    def duration(self, cycle):
+        if not cycle and self.has_set("length") and self.has_value("velocity"):
+            return self.length / self.velocity + d     # a looper / dwell: longer under way than length / velocity
+    return duration
+
+
+def _plug_contact_length(f):
+    def contact_length(self):
+        return f * (self.roll_pass.exit_point - self.roll_pass.entry_point)    # flattened roll: longer contact
+    return contact_length
+
+
+def _plugin_targets(name):
+    """the hooks a plug-in registers on (the most derived classes that carry a core implementation, so that the
+    plug-in comes first in the hook's function chain) and its function factory"""
+    from pyroll.core import BaseRollPass, SymmetricRollPass, TwoRollPass, ThreeRollPass, Transport
+    from pyroll.core.disk_elements import DiskElementUnit
+    return {
+        "exit_point": ([BaseRollPass.exit_point], _plug_exit_point),
+        "entry_point": ([TwoRollPass.entry_point, ThreeRollPass.entry_point], _plug_entry_point),
+        "velocity": ([SymmetricRollPass.velocity], _plug_velocity),
+        "disk_count": ([DiskElementUnit.disk_element_count], _plug_disk_count),
+        "transport_velocity": ([Transport.velocity], _plug_transport_velocity),
+        "transport_dwell": ([Transport.duration], _plug_transport_dwell),
+        "contact_length": ([BaseRollPass.Roll.contact_length], _plug_contact_length),
+    }[name]
+
+
+class Registered:
+    """extra models as hook implementations: registered on entry, removed again on exit (also the extra root hooks).
+    `plugins` = [[name, parameter], ...] (see `_plugin_targets`)"""
+
+    def __init__(self, model, plugins=None):
         self.model = model
+        self.plugins = plugins or []
         self.hfs = []
         self.roots = []
 
     def __enter__(self):
         from pyroll.core import RollPass, Rotator, root_hooks
-        if self.model == "flow_stress":
-            self.hfs.append((RollPass.Profile.flow_stress, RollPass.Profile.flow_stress(_flow_stress)))
-        elif self.model == "width":
-            self.hfs.append((RollPass.OutProfile.width, RollPass.OutProfile.width(_width)))
-            for h in (RollPass.OutProfile.width, Rotator.OutProfile.width):
-                root_hooks.add(h)
-                self.roots.append(h)
+        try:
+            if self.model == "flow_stress":
+                self.hfs.append((RollPass.Profile.flow_stress, RollPass.Profile.flow_stress(_flow_stress)))
+            elif self.model == "width":
+                self.hfs.append((RollPass.OutProfile.width, RollPass.OutProfile.width(_width)))
+                for h in (RollPass.OutProfile.width, Rotator.OutProfile.width):
+                    root_hooks.add(h)
+                    self.roots.append(h)
+            for name, par in self.plugins:
+                hooks, factory = _plugin_targets(name)
+                for hook in hooks:
+                    self.hfs.append((hook, hook.add_function(factory(par))))
+        except BaseException:
+            self.__exit__()
+            raise
         return self
 
     def __exit__(self, *a):
         from pyroll.core import root_hooks
         for h in reversed(self.roots):
             root_hooks.remove_last(h)
-        for hook, hf in self.hfs:
+        for hook, hf in reversed(self.hfs):
             hook.remove_function(hf)
+        self.roots, self.hfs = [], []
         return False
 
 
@@ -349,7 +442,50 @@ def gen_pass(rng, scale, kinds=None, three=False):
         sp["rotation"] = rng.choice([90, 45, 0, 180])
     if rng.random() < 0.15 and not three:
         sp["neutral_point"] = -20e-3 * scale
+    gv = gen_given(rng, scale)
+    if gv:
+        sp["given"] = gv
+        if sp["disks"] == 0 and rng.random() < 0.6:
+            sp["disks"] = rng.choice([1, 1, 2, 3, 4])     # what the disk elements read is given: mostly WITH disk elements
     return sp
+
+
+def gen_given(rng, scale):
+    """values the caller gives EXPLICITLY (keyword of the pass) for hooks the disk partition and the time chain read and
+    that usually take the core's default / derived value: the exit plane out of the high point (`exit_point` != 0, the
+    default is 0), the entry plane (`entry_point`, usually from the height change), the speed of the stock
+    (`velocity`, usually from the roll).  The statement quantifies over configurations: the disk elements must add up to
+    the pass, chain x and t and end when the pass hands on, whatever of these is given."""
+    gv = {}
+    if rng.random() < 0.16:
+        gv["exit_point"] = round(scale * rng.choice([1e-3, 1.5e-3, 2.5e-3, -1e-3, rng.uniform(0.2e-3, 4e-3),
+                                                     -rng.uniform(0.2e-3, 2e-3)]), 6)
+    if rng.random() < 0.07:
+        gv["entry_point"] = -round(scale * rng.uniform(20e-3, 42e-3), 5)
+    if rng.random() < 0.07:
+        gv["velocity"] = rng.choice([1, 0.5, 2.5, round(rng.uniform(0.2, 6), 3)])
+    return gv
+
+
+PLUGIN_POOL = {
+    "exit_point": lambda rng: rng.choice([0.03, 0.05, -0.02, round(rng.uniform(0.01, 0.1), 3)]),
+    "entry_point": lambda rng: round(rng.uniform(0.85, 1.2), 3),
+    "velocity": lambda rng: round(rng.uniform(1.0, 1.1), 3),
+    "disk_count": lambda rng: rng.choice([1, 1, 2, 3]),
+    "transport_velocity": lambda rng: round(rng.uniform(0.8, 1.5), 3),
+    "transport_dwell": lambda rng: rng.choice([0.5, 2, round(rng.uniform(0.1, 3), 3)]),
+}
+
+
+def gen_plugins(rng):
+    """... or by a PLUG-IN: hook implementations registered for the run of the case (removed in `finally`) that supply
+    these quantities instead of the core's defaults -> [[name, parameter], ...] (see `_plugin_targets`)"""
+    if rng.random() >= 0.22:
+        return []
+    names = rng.sample(sorted(PLUGIN_POOL), rng.choice([1, 1, 2, 3]))
+    if "exit_point" not in names and rng.random() < 0.4:
+        names.append("exit_point")
+    return [[n, PLUGIN_POOL[n](rng)] for n in sorted(names)]
 
 
 def gen_transport(rng, after_pass=True):
@@ -548,6 +684,9 @@ def gen_case(rng, hook_names=()):
     if reads:
         spec_in["reads"] = reads
     spec = {"in": spec_in, "units": units, "model": model}
+    plugins = gen_plugins(rng)
+    if plugins:
+        spec["plugins"] = plugins
     if rng.random() < AGAIN_SHARE:
         spec["again"] = gen_again(rng, spec_in, model, three, units)
         if rng.random() < 0.12 and model != "flow_stress":
@@ -595,6 +734,20 @@ CORPUS = [
      "units": [{"type": "seq", "units": [{"type": "seq", "units": [{"type": "pass", "groove": "box", "scale": 1.0, "disks": 1}]},
                                          {"type": "transport", "duration": 1.5, "disks": 2}]},
                {"type": "pass", "groove": "oval", "scale": 0.85, "disks": 0}]},
+    # what the disk partition and the time chain read is GIVEN by the caller: exit plane out of the high point, entry plane,
+    # speed of the stock, a roller table with its own speed; one disk element; a pass inside a nested line
+    {"in": {"kind": "round", "size": 30e-3, "length": 2.0, "strain": 0, "t": 1.0}, "model": "none",
+     "units": [{"type": "pass", "groove": "oval", "scale": 1.0, "disks": 3, "given": {"exit_point": 2e-3, "velocity": 1.5}},
+               {"type": "transport", "length": 1.5, "velocity": 2.0, "disks": 2},
+               {"type": "seq", "units": [{"type": "pass", "groove": "round", "scale": 1.0, "disks": 1,
+                                          "given": {"entry_point": -45e-3, "exit_point": -1e-3}}]},
+               {"type": "pipe", "duration": 0.5, "disks": 1}]},
+    # ... or supplied by plug-ins (forward slip, flattened entry, shifted exit, every unit subdivided), three-roll line
+    {"in": {"kind": "round", "size": 55e-3, "length": 1, "strain": None, "t": None}, "model": "none",
+     "plugins": [["disk_count", 2], ["entry_point", 1.1], ["exit_point", 0.04], ["velocity", 1.05]],
+     "units": [{"type": "seq", "units": [{"type": "pass", "groove": "oval", "scale": 1.0, "three": True, "disks": 0}]},
+               {"type": "transport", "duration": 1, "disks": 0},
+               {"type": "pass", "groove": "round", "scale": 2.0, "three": True, "disks": 1}]},
 ]
 
 
@@ -783,6 +936,9 @@ def check_tree(seq, prec_of, viol, count, root_names_of, given=None, returned=No
             n = u.disk_element_count
             if len(subs) != n:
                 viol("disk-count", f"{where}: {len(subs)} disk elements for disk_element_count={n}")
+            if subs and _is_pass(u):
+                count("pass-with-disks:exit-plane-" + ("in-the-high-point" if u.exit_point == 0 else "shifted")
+                      + (":one-disk" if len(subs) == 1 else ""))
             if subs:
                 L, Dd = _length(u, count), u.duration
                 sd = sum(d.duration for d in subs)
@@ -1211,7 +1367,7 @@ BRANCH_KEYS = ("again-value-not-handed-through", "again-callers-value-not-delive
 def _examine(ctx, spec, twin, count, model=False):
     """solve one spec (and, with `spec["again"]`, the same sequence object a second time on the changed profile) and run
     the oracle -> dict(ok, found=[(key, what, replay)], got, line=(H line, expected) | None, line2=(H2 line, expected) | None).
-    Must run inside `Registered(spec["model"])`."""
+    Must run inside `Registered(spec["model"], spec.get("plugins"))`."""
     from pyroll.core import root_hooks
     twin = twin and bool(spec["in"].get("reads"))
     robj = {"spec": spec, "twin": True} if twin else {"spec": spec}
@@ -1479,7 +1635,7 @@ def collect_observations(seq, observed):
 def run_case(ctx, spec, lines, pending, twin=False):
     """solve one spec, run the oracle, queue the model lines. Returns True if the sequence solved.
     `twin`: additionally solve the same spec without the prior reads and compare (`check_reads_twin`)."""
-    with Registered(spec["model"]):
+    with Registered(spec["model"], spec.get("plugins")):
         res = _examine(ctx, spec, twin, ctx.count, model=True)
         found = res["found"]
         if found and spec["in"].get("reads"):
@@ -1627,8 +1783,12 @@ def run(ctx):
                     ctx.count("again:reconfigured:" + attr)
             nr = len(spec["in"].get("reads", []))
             ctx.count("prior-reads:" + ("none" if nr == 0 else "all" if nr == len(hook_names) else "some"))
+            for (pn, _) in spec.get("plugins", []):
+                ctx.count("plug-in:" + pn)
             for u in flat:
                 ctx.count("spec:" + u["type"] + (":three" if u.get("three") else ""))
+                for g in u.get("given", {}):
+                    ctx.count("given:" + g + (":with-disks" if u.get("disks") else ""))
                 if u["type"] in ("transport", "pipe"):
                     ctx.count("transport-given:" + "+".join(k for k in ("length", "duration", "velocity") if k in u))
                 if u.get("disks"):
@@ -1638,6 +1798,7 @@ def run(ctx):
     ctx.notes["sequences_solved"] = solved
     excluded_point(ctx)
     used_unit_reconfigured(ctx)
+    contradicting_given(ctx)
     if model:
         ilines, iexpect = init_solve_histories(ctx)
         out = ctx.lean_model(MODEL, lines + ilines + ctx.refresh_lines)
@@ -1846,6 +2007,66 @@ def used_unit_reconfigured(ctx):
         if not _in_pyroll(rc):
             raise
         ctx.count("observation:disk-count-changed-on-used-unit:raises-" + type(rc).__name__)
+
+
+# The disk elements of a ROLL PASS take their length from `roll.contact_length` and their duration from their own length /
+# velocity (roll_pass/hookimpls/disk_element.py) - they never read the pass' `length` / `duration` (the generic disk elements
+# of a transport do).  So a pass whose `duration` or `length`, or whose roll's `contact_length`, is GIVEN (keyword, or a
+# plug-in on `Roll.contact_length`: roll flattening) has disk elements that do not add up to it - on the unchanged tree
+# (observed 2026-10-01, /repo 2036eeb; theorem `C06.given_value_breaks_roll_pass_partition` is the same statement about the
+# translated formulas).  These three inputs state one physical quantity twice (the given value and the entry / exit planes
+# it is otherwise derived from); whether they are inside the property's quantifier is for the integrator to decide: while
+# this flag is False they are run on every check, recorded in the evidence (`notes.roll_pass_disks_given_value`, counts
+# `observation:roll-pass-disks-given:...`) and NOT reported; with True the oracle's findings on them are violations with
+# replays (set it once pyroll-core's roll-pass disk elements follow the pass' length / duration).
+ROLL_PASS_DISKS_FOLLOW_GIVEN_REQUIRED = False
+
+
+def contradicting_given(ctx):
+    """roll passes WITH disk elements whose `duration` / `length` / roll `contact_length` is given explicitly or by a
+    plug-in (see ROLL_PASS_DISKS_FOLLOW_GIVEN_REQUIRED): full oracle on the solved tree; recorded, reported only when
+    required.  The first case is witness (a) of the Lean theorem (`exDiskEnv`) replayed on the implementation: entry plane
+    -0.04, exit plane 0.002, velocity 2, three disk elements, duration 0.1 given: the disk durations add up to 0.021."""
+    rng = ctx.rng
+    base = {"in": {"kind": "round", "size": 30e-3, "length": 1, "strain": 0, "t": None}, "model": "none"}
+
+    def line(given=None, roll_given=None, plugins=None, disks=2):
+        p1 = {"type": "pass", "groove": "oval", "scale": 1.0, "disks": disks}
+        if given:
+            p1["given"] = given
+        if roll_given:
+            p1["roll_given"] = roll_given
+        sp = dict(base, units=[p1, {"type": "transport", "duration": 1, "disks": 2},
+                               {"type": "pass", "groove": "round", "scale": 1.0, "disks": rng.choice([0, 1, 3])}])
+        if plugins:
+            sp["plugins"] = plugins
+        return sp
+    cases = [
+        ("witness:pass-duration-given", line({"entry_point": -0.04, "exit_point": 0.002, "velocity": 2.0, "duration": 0.1},
+                                             disks=3)),
+        ("pass-duration-given", line({"duration": round(rng.uniform(0.02, 0.3), 4)}, disks=rng.choice([1, 2, 3, 4]))),
+        ("pass-length-given", line({"length": round(rng.uniform(0.03, 0.08), 4)}, disks=rng.choice([1, 2, 3, 4]))),
+        ("roll-contact-length-given", line(roll_given={"contact_length": round(rng.uniform(0.03, 0.08), 4)},
+                                           disks=rng.choice([1, 2, 3, 4]))),
+        ("roll-contact-length-plug-in", line(plugins=[["contact_length", round(rng.uniform(1.02, 1.15), 3)]],
+                                             disks=rng.choice([1, 2, 3, 4]))),
+    ]
+    notes = ctx.notes.setdefault("roll_pass_disks_given_value", {})
+    for label, spec in cases:
+        with Registered(spec["model"], spec.get("plugins")):
+            res = _examine(ctx, spec, False, lambda *a: None)
+        if not res["ok"]:
+            ctx.count(f"observation:roll-pass-disks-given:{label}:not-solved")
+            notes[label] = "does not solve: " + str(getattr(ctx, "last_solve_error", "?"))
+            continue
+        keys = sorted({k for (k, _, _) in res["found"]})
+        ctx.count(f"observation:roll-pass-disks-given:{label}:" + ("adds-up" if not keys else "does-not-add-up"))
+        notes[label] = ("the oracle finds nothing" if not keys else
+                        f"oracle keys {keys}; e.g. {res['found'][0][1][:220]}") + f"; spec {spec['units'][0]}" \
+            + (f", plug-ins {spec['plugins']}" if spec.get("plugins") else "")
+        if ROLL_PASS_DISKS_FOLLOW_GIVEN_REQUIRED:
+            for (key, what, robj) in res["found"]:
+                ctx.violation(key, what, robj)
 
 
 def replay(ctx, data):
